@@ -3,7 +3,7 @@ CONSTANTS
   Transports = {"min", "prefix", "obfs4"}
   Families = {"v4", "v6", "dual"}
   OverrideSets = {"none", "rand", "fixed"}
-  SubnetCfgs = {"none", "one", "two", "zero", "three"}
+  SubnetCfgs = {"none", "one", "two", "zero", "three", "shared"}
   Exclusions = {"none", "orig", "other"}
   Percents = {"neither", "both", "minonly", "prefixonly"}
   ForgedKinds = {"none", "resp", "sig", "both"}
